@@ -276,10 +276,34 @@ Definition int_to_double_str (F : floats) (v : Z) : res string :=
     end
   end.
 
+(* `v == float64(int64(v))` and the value of int64(v), decided on the IEEE-754 bit
+   pattern by integer arithmetic (no float operation is involved): Some z iff the
+   float is integral and -2^63 <= z < 2^63.  NaN, infinities and out-of-range values
+   give None (on amd64 int64(v) is then MinInt64, whose float64 differs from v). *)
+Definition float_int64 (bits : Z) : option Z :=
+  let sgn := Z.testbit bits 63 in
+  let e := Z.land (Z.shiftr bits 52) 2047 in
+  let m := Z.land bits (2 ^ 52 - 1) in
+  if e =? 2047 then None else
+  let mant := if e =? 0 then m else m + 2 ^ 52 in
+  let ex := if e =? 0 then -1074 else e - 1075 in
+  let mag := if 0 <=? ex then Some (mant * 2 ^ ex)
+             else let d := 2 ^ (- ex) in if mant mod d =? 0 then Some (mant / d) else None in
+  match mag with
+  | None => None
+  | Some a => let v := if sgn then - a else a in
+              if (- 2 ^ 63 <=? v) && (v <? 2 ^ 63) then Some v else None
+  end.
+
 Definition any_to_string (F : floats) (v : goval) (dt : string) : res string :=
   let generic :=
     match v with
-    | GFloat bits => match f_canon F bits with Some s => Ok s | None => Panic miss_tag end
+    | GFloat bits =>
+      (* fix 7821fd0: an integral float64 of a non-double datatype is written as an integer *)
+      match (if String.eqb dt xsd_double then None else float_int64 bits) with
+      | Some z => Ok (z_to_string z)
+      | None => match f_canon F bits with Some s => Ok s | None => Panic miss_tag end
+      end
     | GStr s => Ok s
     | GInt z => Ok (z_to_string z)
     | GBool b => Ok (if b then "true" else "false")
